@@ -330,6 +330,31 @@ class _K(object):
             if others == 0:
                 return False        # blanking the only element empties the segment: a different fault
             return _present(cur) and node.usage == 'R' and _plain_site(i, node, ep, sp, cur, doc) and ep not in syntax_positions(seg)
+        # a whole required composite (the implementation reports it with code 2, the standard would say 1: either), preferably
+        # the last thing the segment carries, so that the segment simply ends earlier
+        whole = []
+        for i, r in enumerate(doc.recs):
+            if not is_body(r):
+                continue
+            for k in r.node.children:
+                if k.kind != 'comp' or k.usage != 'R' or k.seq > len(r.vals) or k.seq in syntax_positions(r.node):
+                    continue
+                v = r.vals[k.seq - 1]
+                if not (any(x != '' for x in v) if isinstance(v, list) else v != ''):
+                    continue
+                others = [q for q, w in enumerate(r.vals, 1) if q != k.seq and (any(x != '' for x in w) if isinstance(w, list) else w != '')]
+                if not others or not all(_plain_site(i, s2, k.seq, s2.seq, (v[s2.seq - 1] if isinstance(v, list) and s2.seq <= len(v) else (v if s2.seq == 1 else '')), doc)
+                                         for s2 in k.children if s2.usage != 'N'):
+                    continue
+                whole.append((i, k, max(others) < k.seq))
+        tail = [w for w in whole if w[2]]
+        if whole and rng.random() < (0.75 if tail else 0.3):
+            i, k, is_tail = rng.choice(tail) if (tail and rng.random() < 0.8) else rng.choice(whole)
+            d = clone(doc)
+            d.recs[i].vals[k.seq - 1] = ''
+            while d.recs[i].vals and d.recs[i].vals[-1] in ('', [], ['']):
+                d.recs[i].vals.pop()
+            return _mk(d, 'missing_required', i, k.seq, None, ['1', '2'], None, note='whole-composite' + (':at-the-tail' if is_tail else ''))
         s = _sites(rng, doc, pred)
         if not s:
             return None
